@@ -157,13 +157,30 @@ def _models(first=None):
         return NotImplemented
 
     # ---- slice views and iterator adaptors (a body reshaped with chunks / split_at / step_by / zip is still followed)
-    def _base(r):
-        while isinstance(r, SX.Ref) and not r.projs and isinstance(r.cell.v, SX.Ref):
-            r = r.cell.v
+    def _base(r, ex=None):
+        """the innermost reference of a chain of references (&&[T] -> &[T]); with `ex`, chains through fields as well"""
+        for _ in range(8):
+            if not isinstance(r, SX.Ref):
+                return r
+            if not r.projs:
+                if isinstance(r.cell.v, SX.Ref):
+                    r = r.cell.v
+                    continue
+                return r
+            if ex is None:
+                return r
+            loc = ("cell", r.cell)
+            for p_ in r.projs:
+                loc = ex.step(None, loc, p_) if loc else None
+            v = ex.get(loc) if loc else None
+            if isinstance(v, SX.Ref):
+                r = v
+                continue
+            return r
         return r
 
     def _view(ex, r, start, length):
-        r = _base(r)
+        r = _base(r, ex)
         arr = ex.deref(r)
         if not (isinstance(r, SX.Ref) and isinstance(arr, SX.Obj) and arr.adt == "array") or start < 0 or length < 0 or start + length > len(arr.fields):
             return None
@@ -176,9 +193,36 @@ def _models(first=None):
         d = ex.deref(v)
         if isinstance(d, SX.Obj) and d.adt == "pyiter":
             return d.fields["items"]
-        r = _base(v)
+        r = _base(v, ex)
         if isinstance(r, SX.Ref) and isinstance(d, SX.Obj) and d.adt == "array":
             return [SX.Ref(r.cell, tuple(r.projs) + (("ci", i, False),)) for i in range(len(d.fields))]
+        if isinstance(d, SX.Obj) and d.adt == "array" and not isinstance(v, SX.Ref):
+            return [d.fields[i] for i in sorted(d.fields)]        # a vector consumed by value
+        return _drain(ex, v)
+
+    _PLAIN = ("array", "pyiter", "tuple", "closure", "fn", "()", None)
+
+    def _drain(ex, v, limit=100000):
+        """items of a user-defined iterator struct (e.g. BitIteratorBE): its own `next` is run until it answers None"""
+        d = ex.deref(v) if isinstance(v, SX.Ref) else v
+        if not (isinstance(d, SX.Obj) and isinstance(d.adt, str) and d.adt not in _PLAIN and d.variant in (None, d.adt.rsplit("::", 1)[-1]) and "::" in d.adt):
+            return None
+        cands = [f for f in ex.facts.fns(unit=ex.unit) if f.name == "next" and f.kind != "Closure" and f.self_head == d.adt and (f.trait_impl or "").endswith("Iterator")]
+        if len(cands) != 1:
+            return None
+        holder = SX.Ref(SX.Cell(d))
+        out = []
+        for _ in range(limit):
+            sub = SX.State()
+            paths = ex.run(cands[0], [holder], st=sub)
+            if len(paths) != 1 or paths[0].flags:
+                return None
+            r = paths[0].ret
+            if isinstance(r, SX.Obj) and r.variant == "None":
+                return out
+            if not (isinstance(r, SX.Obj) and r.variant == "Some"):
+                return None
+            out.append(r.fields[0])
         return None
 
     def _pyiter(items):
@@ -248,6 +292,20 @@ def _models(first=None):
             return SX.some(items.pop(0)) if items else SX.none()
         return NotImplemented
 
+    def _copied(ex, st, fr, t, a):
+        if len(a) != 1:
+            return NotImplemented
+        d = ex.deref(a[0]) if isinstance(a[0], SX.Ref) else a[0]
+        if isinstance(d, SX.Obj) and d.variant == "Some" and d.adt != "pyiter":
+            v = d.fields.get(0)
+            return SX.some(copy.deepcopy(ex.deref(v)) if isinstance(v, SX.Ref) else v)
+        if isinstance(d, SX.Obj) and d.variant == "None" and d.adt != "pyiter":
+            return SX.none()
+        it = _elems(ex, a[0])
+        if it is None:
+            return NotImplemented
+        return _pyiter([copy.deepcopy(ex.deref(x)) if isinstance(x, SX.Ref) else x for x in it])
+
     def _adapt(fun, nargs):
         def h(ex, st, fr, t, a):
             if len(a) != nargs:
@@ -259,10 +317,33 @@ def _models(first=None):
             return _pyiter(fun(it, k))
         return h
 
+    def _once(ex, st, fr, t, a):
+        return _pyiter([a[0]]) if len(a) == 1 else NotImplemented
+
+    def _repeat(ex, st, fr, t, a):
+        return SX.Obj(adt="pyrepeat", fields={"head": [], "value": a[0]}) if len(a) == 1 else NotImplemented
+
+    def _chain(ex, st, fr, t, a):
+        if len(a) != 2:
+            return NotImplemented
+        x = _elems(ex, a[0])
+        y = a[1]
+        if x is not None and isinstance(y, SX.Obj) and y.adt == "pyrepeat":
+            return SX.Obj(adt="pyrepeat", fields={"head": list(x) + list(y.fields["head"]), "value": y.fields["value"]})
+        y2 = _elems(ex, a[1])
+        if x is not None and y2 is not None:
+            return _pyiter(list(x) + list(y2))
+        return NotImplemented
+
     def _zip(ex, st, fr, t, a):
         if len(a) != 2:
             return NotImplemented
-        x, y = _elems(ex, a[0]), _elems(ex, a[1])
+        x = _elems(ex, a[0])
+        if x is not None and isinstance(a[1], SX.Obj) and a[1].adt == "pyrepeat":
+            head = a[1].fields["head"]
+            y = [head[i] if i < len(head) else copy.deepcopy(a[1].fields["value"]) for i in range(len(x))]
+            return _pyiter([SX.Obj(adt="tuple", fields={0: p_, 1: q_}) for p_, q_ in zip(x, y)])
+        y = _elems(ex, a[1])
         if x is None or y is None:
             return NotImplemented
         return _pyiter([SX.Obj(adt="tuple", fields={0: p_, 1: q_}) for p_, q_ in zip(x, y)])
@@ -271,7 +352,7 @@ def _models(first=None):
         d = ex.deref(a[0]) if len(a) == 1 else None
         if isinstance(d, SX.Obj) and d.adt == "pyiter":
             return a[0] if not isinstance(a[0], SX.Ref) else d
-        if isinstance(d, SX.Obj) and d.adt == "array" and isinstance(a[0], SX.Ref):
+        if isinstance(d, SX.Obj) and d.adt == "array":
             return _pyiter(_elems(ex, a[0]))
         return NotImplemented
 
@@ -344,6 +425,30 @@ def _models(first=None):
                 return NotImplemented
         return acc
 
+    def _pred_adaptor(kind):
+        def h(ex, st, fr, t, a):
+            items = _elems(ex, a[0]) if len(a) == 2 else None
+            if items is None:
+                return NotImplemented
+            out, dropping = [], True
+            for it in items:
+                r = _call_value(ex, st, a[1], [SX.Ref(SX.Cell(it))])
+                if not isinstance(r, bool):
+                    return NotImplemented
+                if kind == "skip_while":
+                    if dropping and r:
+                        continue
+                    dropping = False
+                    out.append(it)
+                elif kind == "take_while":
+                    if not r:
+                        break
+                    out.append(it)
+                elif kind == "filter" and r:
+                    out.append(it)
+            return _pyiter(out)
+        return h
+
     def _collect(ex, st, fr, t, a):
         d = ex.deref(a[0]) if len(a) == 1 else None
         if isinstance(d, SX.Obj) and d.adt == "pyiter":
@@ -394,7 +499,7 @@ def _models(first=None):
     def _deref(ex, st, fr, t, a):
         d = ex.deref(a[0]) if len(a) == 1 else None
         if isinstance(d, SX.Obj) and d.adt == "array" and isinstance(a[0], SX.Ref):
-            return _base(a[0])      # Vec<T> -> [T]: the same storage
+            return _base(a[0], ex)      # Vec<T> -> [T], &&[T] -> &[T]: the same storage
         return NotImplemented
 
     def extra(md):
@@ -405,11 +510,23 @@ def _models(first=None):
         md.on(SX.by("core::cmp::PartialEq", "ne"), _enum_eq(True))
         md.on(SX.by(None, "map"), _map)
         md.on(SX.by(None, "for_each"), _for_each)
+        md.on(SX.by("core::ops::bit::Not", "not"), lambda ex, st, fr, t, a: (not ex.deref(a[0])) if len(a) == 1 and isinstance(ex.deref(a[0]), bool) else NotImplemented)
+        md.on(SX.by(None, "new", path_has="alloc::vec::Vec"), lambda ex, st, fr, t, a: SX.Obj(adt="array", fields={}) if not a else NotImplemented)
+        md.on(SX.by(None, ("copied", "cloned")), _copied)
         md.on(SX.by(None, "fold"), _fold)
+        md.on(SX.by(None, "skip_while"), _pred_adaptor("skip_while"))
+        md.on(SX.by(None, "take_while"), _pred_adaptor("take_while"))
+        md.on(SX.by(None, "filter"), _pred_adaptor("filter"))
         md.on(SX.by(None, "collect"), _collect)
         md.on(SX.by(None, "log2"), _int1(lambda n: 0 if n <= 1 else (n - 1).bit_length()))
         md.on(SX.by(None, "reverse_bits"), _int1(lambda x: int(format(x & (2 ** 64 - 1), "064b")[::-1], 2)))
         md.on(SX.by(None, "wrapping_shr"), _int1(lambda x, k: x >> (k % 64)))
+        md.on(SX.by(None, "signum"), _int1(lambda x: (x > 0) - (x < 0)))
+        md.on(SX.by(None, ("abs", "unsigned_abs")), _int1(lambda x: abs(x)))
+        md.on(SX.by(None, "is_positive"), _int1(lambda x: x > 0))
+        md.on(SX.by(None, "is_negative"), _int1(lambda x: x < 0))
+        md.on(SX.by(None, "trailing_zeros"), _int1(lambda x: (x & -x).bit_length() - 1 if x else 64))
+        md.on(SX.by(None, "count_ones"), _int1(lambda x: bin(x).count("1")))
         md.on(SX.by(None, "min"), _int1(lambda x, y: min(x, y)))
         md.on(SX.by(None, "max"), _int1(lambda x, y: max(x, y)))
         md.on(SX.by(None, ("to_vec", "to_owned")), _to_vec)
@@ -423,6 +540,9 @@ def _models(first=None):
         md.on(SX.by(None, "next"), _next)
         md.on(SX.by(None, "into_iter"), _into_iter)
         md.on(SX.by(None, "zip"), _zip)
+        md.on(SX.by(None, "once"), _once)
+        md.on(SX.by(None, "repeat"), _repeat)
+        md.on(SX.by(None, "chain"), _chain)
         md.on(SX.by(None, "step_by"), _adapt(lambda it, k: it[::k] if k > 0 else [], 2))
         md.on(SX.by(None, "take"), _adapt(lambda it, k: it[:k], 2))
         md.on(SX.by(None, "skip"), _adapt(lambda it, k: it[k:], 2))
